@@ -148,6 +148,7 @@ type Machine struct {
 	undecPos  token.Pos
 	why       string
 	lineArgOK map[token.Pos]bool // call sites of literal/string consumers that pass *line
+	synthAdv  bool               // the advance was found in the rounds themselves (synthAdvance), not in a post statement
 }
 
 func (m *Machine) undec(pos token.Pos, f string, a ...any) {
@@ -165,6 +166,184 @@ func (m *Machine) obj(e ast.Expr) types.Object {
 		return m.c.Info.Defs[id]
 	}
 	return nil
+}
+
+// hoistAdvance: `for i < len(json) { …; i += size }` — the advance written as the last statement of a body that never says
+// `continue` for this loop — is `for ; i < len(json); i += size { … }`: every round that does not leave the loop runs to the end of the
+// body. The machine is read on that form (a copy of the declaration; the expressions are the very nodes of the original).
+func (m *Machine) hoistAdvance() {
+	loop := m.loop
+	if loop.Post != nil || loop.Body == nil || len(loop.Body.List) == 0 {
+		return
+	}
+	last, ok := loop.Body.List[len(loop.Body.List)-1].(*ast.AssignStmt)
+	if !ok || last.Tok != token.ADD_ASSIGN || len(last.Lhs) != 1 || len(last.Rhs) != 1 || m.obj(last.Lhs[0]) == nil || m.obj(last.Rhs[0]) == nil {
+		return
+	}
+	label := ""
+	for _, s := range m.fn.Body.List {
+		if ls, ok := s.(*ast.LabeledStmt); ok && ls.Stmt == ast.Stmt(loop) {
+			label = ls.Label.Name
+		}
+	}
+	continues := false
+	var walk func(n ast.Node, inner int)
+	walk = func(n ast.Node, inner int) {
+		ast.Inspect(n, func(k ast.Node) bool {
+			switch x := k.(type) {
+			case *ast.FuncLit:
+				return false
+			case *ast.ForStmt:
+				if k != n {
+					walk(x.Body, inner+1)
+					return false
+				}
+			case *ast.RangeStmt:
+				if k != n {
+					walk(x.Body, inner+1)
+					return false
+				}
+			case *ast.BranchStmt:
+				if x.Tok == token.CONTINUE && ((x.Label == nil && inner == 0) || (x.Label != nil && x.Label.Name == label)) {
+					continues = true
+				}
+				if x.Tok == token.GOTO {
+					continues = true
+				}
+			}
+			return true
+		})
+	}
+	walk(loop.Body, 0)
+	if continues {
+		return
+	}
+	body := *loop.Body
+	body.List = append([]ast.Stmt(nil), loop.Body.List[:len(loop.Body.List)-1]...)
+	nl := *loop
+	nl.Body, nl.Post = &body, last
+	fn := *m.fn
+	fb := *m.fn.Body
+	fb.List = append([]ast.Stmt(nil), m.fn.Body.List...)
+	for i, s := range fb.List {
+		if s == ast.Stmt(loop) {
+			fb.List[i] = &nl
+		} else if ls, ok := s.(*ast.LabeledStmt); ok && ls.Stmt == ast.Stmt(loop) {
+			l2 := *ls
+			l2.Stmt = &nl
+			fb.List[i] = &l2
+		}
+	}
+	fn.Body = &fb
+	m.fn, m.loop = &fn, &nl
+}
+
+// synthAdvance: the position kept in a cursor object (`cursor.read()` returns the rune at `next` and moves `next` behind it). On the
+// executor's paths the cursor's fields are locals and its methods are inlined, so the loop reads `for next < len(json) { …; next =
+// next + size [+ pos] }` with size the decoded width of the rune at json[next:] — the advance is part of every continuing round
+// instead of a post statement. The rounds are presented as the machine reads them: the position variable left alone (but for a nested
+// offset), the width in a size variable, the advance as the (synthesised) post step. Nothing is assumed: a round whose new position is
+// not `position + width of the rune at the position (+ further terms)` leaves the machine unrecognised.
+func (m *Machine) synthAdvance() {
+	sm := m.sx()
+	if sm.why != "" || sm.loop == nil || sm.loop.CondT == nil {
+		return
+	}
+	b, ok := simplify(sm.loop.CondT).(TBin)
+	if !ok {
+		return
+	}
+	var pos TLoop
+	var bound Term
+	switch b.Op {
+	case token.LSS:
+		pos, ok = b.X.(TLoop)
+		bound = b.Y
+	case token.GTR:
+		pos, ok = b.Y.(TLoop)
+		bound = b.X
+	default:
+		ok = false
+	}
+	if !ok || pos.ID != sm.loop.ID || !isIntType(pos.Obj.Type()) {
+		return
+	}
+	if ln, isLen := bound.(TBuiltin); !isLen || ln.Name != "len" || len(ln.Args) != 1 || !isParamTerm(ln.Args[0], m.jsonV) {
+		return
+	}
+	var flat func(t Term, out *[]Term)
+	flat = func(t Term, out *[]Term) {
+		if s, isSum := t.(TBin); isSum && s.Op == token.ADD {
+			flat(s.X, out)
+			flat(s.Y, out)
+			return
+		}
+		*out = append(*out, t)
+	}
+	size := types.NewVar(m.loop.Pos(), m.c.Types, "size·"+pos.Obj.Name(), types.Typ[types.Int])
+	type upd struct {
+		p        *Path
+		pos, siz Term
+	}
+	var upds []upd
+	for _, ip := range sm.iter {
+		goesOn := ip.End == "fall" || ip.End == "continue"
+		t, has := ip.Env[pos.Obj]
+		if !has || sameTerm(t, pos) {
+			if goesOn {
+				return
+			}
+			continue // a round that leaves the function before the cursor moved
+		}
+		var parts []Term
+		flat(t, &parts)
+		var width Term
+		var others []Term
+		nPos := 0
+		for _, q := range parts {
+			switch {
+			case sameTerm(q, pos):
+				nPos++
+			case m.isSize(q) && width == nil:
+				// the width of the rune at the position, nothing else
+				d := q.(TProj).X.(TCall)
+				sl, isS := (TSlice{}), false
+				if len(d.Args) == 1 {
+					sl, isS = d.Args[0].(TSlice)
+				}
+				if !isS || !isParamTerm(sl.X, m.jsonV) || !sameTerm(sl.Lo, pos) || sl.Hi != nil {
+					if goesOn {
+						return
+					}
+					others = append(others, q)
+					continue
+				}
+				width = q
+			default:
+				others = append(others, q)
+			}
+		}
+		if nPos != 1 || width == nil {
+			if goesOn {
+				return
+			}
+			continue // leaves the function: where it left the cursor does not matter
+		}
+		var np Term = pos
+		for _, o := range others {
+			np = TBin{Op: token.ADD, X: np, Y: o}
+		}
+		upds = append(upds, upd{ip, np, width})
+	}
+	if len(upds) == 0 {
+		return
+	}
+	for _, u := range upds {
+		u.p.Env = copyEnv(u.p.Env)
+		u.p.Env[pos.Obj] = u.pos
+		u.p.Env[size] = u.siz
+	}
+	m.idxV, m.sizeV, m.synthAdv = pos.Obj, size, true
 }
 
 func newMachine(c *Ctx, name string) *Machine {
@@ -195,6 +374,7 @@ func newMachine(c *Ctx, name string) *Machine {
 		m.why = "expected exactly one top-level for loop"
 		return m
 	}
+	m.hoistAdvance()
 	// the position variable and the decoded size: the post statement is `i += size`
 	if as, ok := m.loop.Post.(*ast.AssignStmt); ok && as.Tok == token.ADD_ASSIGN && len(as.Lhs) == 1 && len(as.Rhs) == 1 {
 		m.idxV = m.obj(as.Lhs[0])
@@ -279,7 +459,7 @@ func newMachine(c *Ctx, name string) *Machine {
 					return true
 				}
 				sig, _ := f.Type().(*types.Signature)
-				if sig == nil || sig.Results().Len() != 2 || !isEmptyIface(sig.Results().At(0).Type()) {
+				if sig == nil || sig.Results().Len() < 2 || !isEmptyIface(sig.Results().At(0).Type()) {
 					return true
 				}
 				ast.Inspect(call.Args[0], func(k ast.Node) bool {
@@ -298,6 +478,26 @@ func newMachine(c *Ctx, name string) *Machine {
 						keyB = b
 					}
 				}
+			} else {
+				// … or the key buffer is the one whose content is assigned to the key register (name, err = decode(key.String()))
+				ast.Inspect(m.fn.Body, func(n ast.Node) bool {
+					as, ok := n.(*ast.AssignStmt)
+					if !ok || len(as.Lhs) == 0 || len(as.Rhs) != 1 {
+						return true
+					}
+					if !m.keyRegs[m.obj(as.Lhs[0])] || m.obj(as.Lhs[0]) == nil {
+						return true
+					}
+					ast.Inspect(as.Rhs[0], func(k ast.Node) bool {
+						if id, ok := k.(*ast.Ident); ok {
+							if _, isB := m.builders[m.obj(id)]; isB {
+								keyB = m.obj(id)
+							}
+						}
+						return true
+					})
+					return true
+				})
 			}
 		}
 		for b := range m.builders {
@@ -318,6 +518,9 @@ func newMachine(c *Ctx, name string) *Machine {
 		if k, ok := sc.Lookup(n).(*types.Const); ok && isStateType(c, k.Type()) && (m.stateV == nil || types.Identical(k.Type(), m.stateV.Type())) {
 			m.states = append(m.states, n)
 		}
+	}
+	if (m.idxV == nil || m.sizeV == nil) && m.loop.Post == nil {
+		m.synthAdvance()
 	}
 	switch {
 	case m.idxV == nil || m.sizeV == nil:
